@@ -20,7 +20,11 @@ TRUSTED_BASE = BASE_TRUSTED + [
 ]
 RULE = ('kernel cases: C02/C04 generators plus near-axis meridional inputs (x=L=0, |y|,|M| down to 1e-6). '
         'system: seeded axially symmetric lenses (1-12 planes/spheres/conics/even aspheres, mirrors, ideal and catalogue '
-        'media, finite/infinite object, EPD/imageFNO/objectNA, angle/object_height fields, stop anywhere); '
+        'media, finite/infinite object, EPD/imageFNO/objectNA, angle/object_height fields, stop anywhere; per-field vignetting '
+        'factors that differ between fields, field lists in non-ascending/shuffled order, edit histories after the keyword '
+        'construction: ready-made Surface objects passed as new_surface= (incl. one carrying is_stop=True: stop moved), '
+        'keyword insertion at an index, insert + remove_surface; exactly one stop asserted on the final prescription and the '
+        'stop-centre clause judged at the stop the history asks for; the pupil scale of a bundle uses its own vignetting factor); '
         '(a) M_C05.mtrace/mlaunch (FOps) vs Optic.trace_generic on meridional rays at eps in {1,0.3,1e-2,1e-4}; '
         '(b) the property itself: eps = 1e-1..1e-4 (7 values), marginal-type (Hy=0,Py=eps) and chief-type (Hy=eps,Py=0) rays, '
         'fitted order (asymptotic tail: the four smallest eps above the noise floor, else the whole range) of |real/scale - paraxial| >= 1.9 at every surface for height and tangent, axial focus -> paraxial, '
@@ -92,9 +96,13 @@ def kernel_cases(ctx):
 # lenses
 # ----------------------------------------------------------------------------------------------
 def _gen_specs(ctx, nl, salt, allow=('plane', 'standard', 'conic', 'even_asphere')):
+    """random axially symmetric lenses.  Classes on top of lensgen.gen_spec: per-field vignetting factors that differ
+    between the off-axis fields (the axial field stays unvignetted), field lists in non-ascending / shuffled order,
+    and edit histories that finish the lens through other public paths (spec['edits'], see _plan_edits)"""
     import random
     import lensgen
     rng = random.Random(ctx.seed * 31 + salt)
+    r2 = random.Random(ctx.seed * 131 + salt)      # separate stream: the lens population stays the one of round 1
     out = []
     for _ in range(nl):
         spec = lensgen.gen_spec(rng, allow=list(allow), decenter=False)
@@ -105,8 +113,103 @@ def _gen_specs(ctx, nl, salt, allow=('plane', 'standard', 'conic', 'even_asphere
             s.pop('coating', None)
         if all(f[0] == 0 for f in spec['fields']):
             spec['fields'] = [[0.0, 0.0, 0.0, 0.0], [rng.uniform(1.0, 8.0), 0.0, 0.0, 0.0]]
+        if r2.random() < 0.5:
+            for f in spec['fields']:
+                if f[0] != 0:
+                    f[2], f[3] = r2.uniform(0.0, 0.3), r2.uniform(0.05, 0.4)
+        if r2.random() < 0.5:
+            lensgen.reorder_fields(spec, r2)
+        if r2.random() < 0.45:
+            _plan_edits(spec, r2)
         out.append(spec)
     return out
+
+
+def _gaps(spec):
+    """air gaps of the prescription: (index i of the surface in front, z_i, thickness, surface i is a plane)"""
+    z, medium, out = 0.0, 'air', []
+    for i, s in enumerate(spec['surfaces'], start=1):
+        m = s.get('material', 'air')
+        if m != 'mirror':
+            medium = 'air' if m == 'air' else 'glass'
+        plane = s.get('type', 'standard') == 'standard' and math.isinf(s.get('radius', INF))
+        if medium == 'air' and abs(s['thickness']) > 0.5:
+            out.append((i, z, s['thickness'], plane))
+        z += s['thickness']
+    return out
+
+
+def _plan_edits(spec, rng):
+    """edit history applied after the keyword construction (all through Optic.add_surface / remove_surface):
+    obj_dummy  ready-made Surface(Plane) passed as new_surface= at an index inside an air gap
+    obj_stop   the same carrying is_stop=True: the stop MOVES to it
+    kw_dummy / kw_stop  keyword-form insertion after construction (lands on the vertex plane of the surface in
+               front, so only behind a plane surface)
+    insert_remove  obj_dummy followed by remove_surface of it"""
+    gaps = _gaps(spec)
+    if not gaps:
+        return
+    kind = rng.choice(['obj_dummy', 'obj_stop', 'obj_stop', 'kw_dummy', 'kw_stop', 'insert_remove'])
+    if kind.startswith('kw'):
+        gaps = [g for g in gaps if g[3]]
+        if not gaps:
+            kind = 'obj_stop' if kind == 'kw_stop' else 'obj_dummy'
+            gaps = _gaps(spec)
+    i, z, t, _ = rng.choice(gaps)
+    e = {'op': kind, 'index': i + 1}
+    if not kind.startswith('kw'):
+        e['z'] = z + rng.uniform(0.3, 0.7) * t
+    spec['edits'] = [e]
+
+
+def expected_stop(spec):
+    """index (in the final surface list) of THE aperture stop the construction history asks for"""
+    st = [bool(s.get('is_stop')) for s in spec['surfaces']].index(True) + 1
+    for e in spec.get('edits', []):
+        k = e['index']
+        if e['op'] in ('obj_stop', 'kw_stop'):
+            st = k
+        elif e['op'] in ('obj_dummy', 'kw_dummy') and k <= st:
+            st += 1
+    return st
+
+
+def build_lens(spec):
+    """lensgen.build (keyword construction) followed by the edit history of the spec"""
+    import lensgen
+    from optiland.surfaces import Surface
+    from optiland.geometries import Plane
+    from optiland.coordinate_system import CoordinateSystem
+    o = lensgen.build({k: v for k, v in spec.items() if k != 'edits'})
+    for e in spec.get('edits', []):
+        k = e['index']
+        if e['op'] in ('obj_dummy', 'obj_stop', 'insert_remove'):
+            m = o.surface_group.surfaces[k - 1].material_post
+            o.add_surface(new_surface=Surface(Plane(CoordinateSystem(z=e['z'])), m, m, is_stop=(e['op'] == 'obj_stop')),
+                          index=k)
+            if e['op'] == 'insert_remove':
+                o.surface_group.remove_surface(k)
+        elif e['op'] in ('kw_dummy', 'kw_stop'):
+            o.add_surface(index=k, is_stop=(e['op'] == 'kw_stop'), material='air', thickness=0.0)
+    return o
+
+
+def vig_factor(spec, Hy):
+    """independent reading of FieldGroup.get_vig_factor for fields on the y axis: piecewise-linear in the normalised
+    field height through the (height, factor) pairs of the field list, whatever order they were listed in"""
+    pts = sorted((f[0], f[2], f[3]) for f in spec['fields'])
+    mx = max(p[0] for p in pts)
+    hs = [p[0] / mx if mx else 0.0 for p in pts]
+    h = abs(Hy)
+
+    def interp(vals):
+        if h <= hs[0]:
+            return vals[0]
+        for a in range(len(hs) - 1):
+            if hs[a] <= h <= hs[a + 1] and hs[a + 1] > hs[a]:
+                return vals[a] + (vals[a + 1] - vals[a]) * (h - hs[a]) / (hs[a + 1] - hs[a])
+        return vals[-1]
+    return interp([p[1] for p in pts]), interp([p[2] for p in pts])
 
 
 INF = float('inf')
@@ -139,6 +242,20 @@ CORPUS = [
      'aperture': ['EPD', 8.0], 'field_type': 'object_height', 'fields': [[0.0, 0.0, 0.0, 0.0], [5.0, 0.0, 0.0, 0.0]],
      'wavelengths': [[0.55, True]], 'telecentric': False},
 ]
+
+
+def _count_classes(h, spec):
+    """evidence histogram of the input classes a lens belongs to"""
+    ys = [f[0] for f in spec['fields']]
+    vig = any(f[2] or f[3] for f in spec['fields'])
+    unsorted_ = ys != sorted(ys)
+    for key, on in (('vignetted_off_axis_fields', vig), ('fields_not_ascending', unsorted_),
+                    ('vignetted_and_not_ascending', vig and unsorted_)):
+        h[key] = h.get(key, 0) + int(on)
+    for e in spec.get('edits', []):
+        h['edit:' + e['op']] = h.get('edit:' + e['op'], 0) + 1
+    if spec.get('edits') and expected_stop(spec) != [bool(x.get('is_stop')) for x in spec['surfaces']].index(True) + 1:
+        h['stop_moved_by_edit'] = h.get('stop_moved_by_edit', 0) + 1
 
 
 def _real(o, Hy, Py, w):
@@ -197,9 +314,15 @@ def convergence_oracle(o, spec):
     mf = float(o.fields.max_y_field)
     ft = spec['field_type']
     nS = len(o.surface_group.surfaces)
-    stop = o.surface_group.stop_index
+    flagged = [k for k, sf in enumerate(o.surface_group.surfaces) if sf.is_stop]
+    stop = expected_stop(spec)
     out = []
     info = {'nontrivial': False}
+    if flagged != [stop]:
+        out.append({'clause': 'unique-stop', 'flagged_as_stop': flagged, 'expected': stop,
+                    'detail': 'the final prescription must carry exactly one aperture stop, the one its construction asks for'})
+    # pupil compression of the axial bundle by ITS OWN vignetting factor (trace_generic and generate_rays both apply it)
+    pup0 = (1 - vig_factor(spec, 0.0)[1]) ** 2
     kinds = [('marginal', ya, ua)]
     if mf != 0:
         kinds.append(('chief', yb, ub))
@@ -208,7 +331,7 @@ def convergence_oracle(o, spec):
         for e in EPS:
             if kind == 'marginal':
                 r = _real(o, 0.0, e, w)
-                sc = e
+                sc = e * pup0
             else:
                 r = _real(o, e, 0.0, w)
                 sc = e if ft == 'object_height' else math.tan(math.radians(e * mf)) / math.tan(math.radians(mf))
@@ -273,7 +396,7 @@ def convergence_oracle(o, spec):
         es, E = [], []
         for e in (1e-2, 1e-3, 1e-4):
             try:
-                P.trace(Hy * e, Py * e, w)
+                P.trace(Hy * e, Py * e * (1 - vig_factor(spec, Hy * e)[1]) ** 2, w)
                 yp = np.ravel(o.surface_group.y).astype(float)
                 up = np.ravel(o.surface_group.u).astype(float)
                 r = _real(o, Hy * e, Py * e, w)
@@ -334,10 +457,10 @@ def _model_cases(ctx, nl):
     warnings.simplefilter('ignore')
     cases = []
     hist = {'lenses': 0, 'outside_model_domain': 0, 'build_errors': 0, 'mirrors': 0, 'finite_object': 0,
-            'nonfinite_rays': 0, 'rays': 0}
+            'nonfinite_rays': 0, 'rays': 0, 'classes': {}}
     for spec in _gen_specs(ctx, nl, 5, allow=('plane', 'standard', 'conic')):
         try:
-            o = lensgen.build(spec)
+            o = build_lens(spec)
             w = o.primary_wavelength
             ms = _msurfs(o, w)
             EPL, EPD = float(o.paraxial.EPL()), float(o.paraxial.EPD())
@@ -348,6 +471,7 @@ def _model_cases(ctx, nl):
             hist['outside_model_domain'] += 1
             continue
         hist['lenses'] += 1
+        _count_classes(hist['classes'], spec)
         hist['mirrors'] += int(any(s['refl'] for s in ms))
         hist['finite_object'] += int(math.isfinite(spec['object_thickness']))
         mf = float(o.fields.max_y_field)
@@ -364,7 +488,7 @@ def _model_cases(ctx, nl):
                 hist['nonfinite_rays'] += 1
                 continue
             cases.append({'ms': ms, 'spec': spec, 'ray': [Hy, Py], 'launch': [y[0], z[0], M[0], N[0]],
-                          'aim': [Py * EPD / 2, EPL], 'expect': [v for k in range(1, len(y)) for v in (y[k], z[k], M[k], N[k])]})
+                          'aim': [Py * (1 - vig_factor(spec, Hy)[1]) ** 2 * EPD / 2, EPL], 'expect': [v for k in range(1, len(y)) for v in (y[k], z[k], M[k], N[k])]})
     return cases, hist
 
 
@@ -406,13 +530,13 @@ def _oracle_sweep(ctx, nl, salt):
     import lensgen
     warnings.simplefilter('ignore')
     hist = {'lenses': 0, 'build_errors': 0, 'oracle_errors': 0, 'finite_object': 0, 'object_height': 0, 'mirrors': 0,
-            'even_asphere': 0, 'violating_lenses': 0}
+            'even_asphere': 0, 'violating_lenses': 0, 'classes': {}}
     viol = []
     nontrivial = 0
     seen = set()
     for spec in CORPUS + _gen_specs(ctx, nl, salt):
         try:
-            o = lensgen.build(spec)
+            o = build_lens(spec)
         except Exception:   # noqa
             hist['build_errors'] += 1
             continue
@@ -424,6 +548,7 @@ def _oracle_sweep(ctx, nl, salt):
             hist['oracle_error_types'][type(e).__name__] += 1
             continue
         hist['lenses'] += 1
+        _count_classes(hist['classes'], spec)
         hist['finite_object'] += int(math.isfinite(spec['object_thickness']))
         hist['object_height'] += int(spec['field_type'] == 'object_height')
         hist['mirrors'] += int(any(s.get('material') == 'mirror' for s in spec['surfaces']))
@@ -564,7 +689,7 @@ def replay_finding(ctx, f):
             'paraxial-trace-finite-angle': ANGLE_REPLAY}.get(f['id'])
     if spec is None:
         return None
-    o = lensgen.build(spec)
+    o = build_lens(spec)
     bad, _ = convergence_oracle(o, spec)
     w = {'spec': spec, 'oracle': bad}
     if f['id'] == 'even-asphere-r2-ignored':
